@@ -310,6 +310,9 @@ namespace detail
 	{
 		GLM_STATIC_ASSERT(std::numeric_limits<T>::is_integer, "'bitfieldInsert' only accept integer values");
 
+		if(Bits <= 0)
+			return Base; // nothing to insert; Offset may equal the bit width here, which must not be used as a shift count
+
 		T const Mask = detail::mask(static_cast<T>(Bits)) << Offset;
 		return (Base & ~Mask) | ((Insert << static_cast<T>(Offset)) & Mask);
 	}
